@@ -33,7 +33,7 @@ def copy_value(v):
 
 class VMRun:
     __slots__ = ("status", "value", "globals", "exc", "events", "steps", "oob", "calls", "ops",
-                 "callee_stores", "harness", "where", "branches", "depth")
+                 "callee_stores", "harness", "where", "branches", "depth", "sig")
 
 
 def run_vm(compiled, fname, args, globals_init, obs, budget):
@@ -43,6 +43,7 @@ def run_vm(compiled, fname, args, globals_init, obs, budget):
     r.globals = {}
     r.exc = None
     r.where = None
+    r.sig = None
     vm = nslapi.make_vm(compiled.program)
     for k, v in globals_init.items():
         vm.SetGlobal(k, copy_value(v))
@@ -60,7 +61,8 @@ def run_vm(compiled, fname, args, globals_init, obs, budget):
         except Exception as e:
             r.status = "exception"
             r.exc = nslapi.exc_info(e)
-        r.where = obs.cur_ins
+        r.where = obs.cur_ins[:3] if obs.cur_ins else None
+        r.sig = vmobs.signature(obs.cur_ins[3]) if (obs.cur_ins and r.status == "exception") else None
     finally:
         nslapi.set_observer(None)
     if r.status == "ok":
@@ -186,7 +188,7 @@ def check_program(R, obs, name, module, fname, inputs, family, require_accept=Tr
         if bad is not None:
             out["bad"] += 1
             if vm.status == "exception":
-                key = "vm-exception:%s:%s:%s" % (family, vm.exc["cls"], vm.where[2] if vm.where else "?")
+                key = "vm-exception:%s:%s:%s" % (family, vm.exc["cls"], vm.sig or (vm.where[2] if vm.where else "?"))
             elif vm.status == "nonterminating":
                 key = "nonterminating:%s" % family
             elif bad.startswith("monitor:"):
